@@ -986,6 +986,17 @@ def r16_6(ctx, rc):
                      'dropped', W.file, key=key)
 
 
+def r16_7(ctx, rc):
+    """What is persisted is complete and by value: the created-directory
+    set handed to the cache (R12.4) and no record-owned value shared with
+    the caller, who could change it between the call and the write
+    (R11.1)."""
+    from .c12 import r12_4
+    from .c11 import r11_1
+    r12_4(ctx, rc)
+    r11_1(ctx, rc)
+
+
 RULES = [
     ('R16.1', 'record fields survive write/read (attribute<->key<->param)',
      r16_1),
@@ -996,6 +1007,8 @@ RULES = [
     ('R16.5', 'write() serialises every root operation', r16_5),
     ('R16.6', 'every suboperation is serialised; non-root set is complete',
      r16_6),
+    ('R16.7', 'the persisted directory set is complete; records are not '
+     'shared with the caller (R12.4, R11.1)', r16_7),
 ]
 
 
